@@ -7,23 +7,49 @@ pub mod rw {
     pub trait Read: Sized {
         spec fn origin(&self) -> Seq<u8>;
         spec fn rem(&self) -> Seq<u8>;
+        /// number of bytes this reader has handed out so far, as the reader itself counts them (OffsetReader: its `offset` field)
+        spec fn pos(&self) -> nat;
         #[verifier::prophetic]
         spec fn after(&self) -> Seq<u8>;
         #[verifier::prophetic]
+        spec fn pos_after(&self) -> nat;
+        #[verifier::prophetic]
         spec fn kept(&self) -> bool;
         proof fn law_resolved(&self)
-            ensures has_resolved(*self) ==> self.after() == self.rem() && self.kept();
+            ensures has_resolved(*self) ==> self.after() == self.rem() && self.pos_after() == self.pos() && self.kept();
+        /// std::io::Read::read: hands out a prefix of what remains (short reads allowed); 0 only at end of stream or for an empty buffer
+        fn read(&mut self, buf: &mut [u8]) -> (r: Result<usize, super::io::Error>)
+            ensures
+                (*final(self)).after() == (*old(self)).after(), (*final(self)).pos_after() == (*old(self)).pos_after(), (*final(self)).kept() == (*old(self)).kept(), (*final(self)).origin() == (*old(self)).origin(),
+                final(buf)@.len() == old(buf)@.len(),
+                // std: "if an error is returned then it must be guaranteed that no bytes were read"
+                r is Err ==> (*final(self)).rem() == (*old(self)).rem() && (*final(self)).pos() == (*old(self)).pos(),
+                r is Ok ==> {
+                    let n = r->Ok_0 as int;
+                    &&& n <= old(buf)@.len() && n <= (*old(self)).rem().len()
+                    &&& (n == 0 <==> ((*old(self)).rem().len() == 0 || old(buf)@.len() == 0))
+                    &&& final(buf)@.take(n) == (*old(self)).rem().take(n)
+                    &&& (*final(self)).rem() == (*old(self)).rem().skip(n)
+                    &&& (*final(self)).pos() == (*old(self)).pos() + n
+                };
         proof fn law_suffix(&self)
             ensures self.rem().len() <= self.origin().len(), self.origin().skip(self.origin().len() - self.rem().len()) == self.rem();
+        /// the reader's own count is exact, and a stream is shorter than 2^64 bytes (ASSUMED representation invariant of every reader)
+        proof fn law_pos(&self)
+            ensures self.pos() + self.rem().len() == self.origin().len(), self.origin().len() <= usize::MAX;
     }
     impl<R: Read> Read for &mut R {
         open spec fn origin(&self) -> Seq<u8> { (**self).origin() }
         open spec fn rem(&self) -> Seq<u8> { (**self).rem() }
+        open spec fn pos(&self) -> nat { (**self).pos() }
         #[verifier::prophetic]
         open spec fn after(&self) -> Seq<u8> { (*final(*self)).rem() }
         #[verifier::prophetic]
+        open spec fn pos_after(&self) -> nat { (*final(*self)).pos() }
+        #[verifier::prophetic]
         open spec fn kept(&self) -> bool {
             &&& (*final(*self)).after() == (**self).after()
+            &&& (*final(*self)).pos_after() == (**self).pos_after()
             &&& (*final(*self)).kept() == (**self).kept()
             &&& (*final(*self)).origin() == (**self).origin()
         }
@@ -33,6 +59,9 @@ pub mod rw {
             }
         }
         proof fn law_suffix(&self) { (**self).law_suffix(); }
+        proof fn law_pos(&self) { (**self).law_pos(); }
+        #[verifier::external_body]
+        fn read(&mut self, buf: &mut [u8]) -> (r: Result<usize, super::io::Error>) { unimplemented!() }
     }
     /// stand-in for std::io::Write: `written` is everything this writer has accepted so far
     pub trait Write: Sized {
@@ -80,9 +109,9 @@ pub trait ReadBytesExt: rw::Read {
     #[verifier::external_body]
     fn read_u32<B>(&mut self) -> (r: Result<u32, io::Error>)
         ensures
-            (*final(self)).after() == (*old(self)).after(), (*final(self)).kept() == (*old(self)).kept(), (*final(self)).origin() == (*old(self)).origin(),
+            (*final(self)).after() == (*old(self)).after(), (*final(self)).pos_after() == (*old(self)).pos_after(), (*final(self)).kept() == (*old(self)).kept(), (*final(self)).origin() == (*old(self)).origin(),
             match r {
-                Ok(v) => (*old(self)).rem().len() >= 4 && (*old(self)).rem().take(4) == be32(v) && (*final(self)).rem() == (*old(self)).rem().skip(4),
+                Ok(v) => (*old(self)).rem().len() >= 4 && (*old(self)).rem().take(4) == be32(v) && (*final(self)).rem() == (*old(self)).rem().skip(4) && (*final(self)).pos() == (*old(self)).pos() + 4,
                 Err(e) => (*old(self)).rem().len() < 4 && e.kind == io::ErrorKind::UnexpectedEof,
             }
     { unimplemented!() }
@@ -117,7 +146,8 @@ pub mod codeq {
         fn decode<R: rw::Read>(r: R) -> (res: Result<Self, io::Error>)
             ensures
                 // C12 (S): a decoded value's encoding is exactly the consumed bytes; nothing beyond is consumed
-                res is Ok ==> r.kept() && r.rem().len() >= res->Ok_0.enc().len() && r.rem().take(res->Ok_0.enc().len() as int) == res->Ok_0.enc() && r.after() == r.rem().skip(res->Ok_0.enc().len() as int);
+                res is Ok ==> r.kept() && r.rem().len() >= res->Ok_0.enc().len() && r.rem().take(res->Ok_0.enc().len() as int) == res->Ok_0.enc() && r.after() == r.rem().skip(res->Ok_0.enc().len() as int)
+                    && r.pos_after() == r.pos() + res->Ok_0.enc().len();
     }
 }
 use rw::Read as _;
@@ -143,19 +173,25 @@ pub struct ChecksumReader<R: rw::Read> { pub inner: R, pub org: Ghost<Seq<u8>> }
 impl<R: rw::Read> rw::Read for ChecksumReader<R> {
     open spec fn origin(&self) -> Seq<u8> { self.org@ }
     open spec fn rem(&self) -> Seq<u8> { self.inner.rem() }
+    open spec fn pos(&self) -> nat { self.inner.pos() }
     #[verifier::prophetic]
     open spec fn after(&self) -> Seq<u8> { self.inner.after() }
+    #[verifier::prophetic]
+    open spec fn pos_after(&self) -> nat { self.inner.pos_after() }
     #[verifier::prophetic]
     open spec fn kept(&self) -> bool { self.inner.kept() }
     proof fn law_resolved(&self) { admit(); /* trusted: dropping the wrapper drops the inner reader */ }
     proof fn law_suffix(&self) { admit(); /* trusted representation invariant of the stand-in */ }
+    proof fn law_pos(&self) { admit(); /* trusted representation invariant of the stand-in */ }
+    #[verifier::external_body]
+    fn read(&mut self, buf: &mut [u8]) -> (r: Result<usize, io::Error>) { unimplemented!() }
 }
 impl<R: rw::Read> ChecksumReader<R> {
     /// reads the 8-byte big-endian checksum from the inner reader and compares it with the hash of everything read so far
     #[verifier::external_body]
     pub fn verify_checksum<F>(self, context: F) -> (r: Result<(), io::Error>)
         ensures match r {
-            Ok(()) => self.kept() && self.rem().len() >= 8 && self.rem().take(8) == be64(crc(consumed(&self))) && self.after() == self.rem().skip(8),
+            Ok(()) => self.kept() && self.rem().len() >= 8 && self.rem().take(8) == be64(crc(consumed(&self))) && self.after() == self.rem().skip(8) && self.pos_after() == self.pos() + 8,
             Err(e) => (self.rem().len() < 8 && e.kind == io::ErrorKind::UnexpectedEof) || (self.rem().len() >= 8 && self.rem().take(8) != be64(crc(consumed(&self))) && e.kind == io::ErrorKind::InvalidData),
         }
     { unimplemented!() }
